@@ -279,11 +279,8 @@ def judge_step(e, col):
     after_lib = e.after
     agree = (e.ok == ok_ref) and (not ok_ref or (all_bytes(after_lib) and [bytes(x) for x in after_lib] == after_ref))
     if agree:
-        # a non-boolean success value is only tolerated where consensus also succeeds; remember it for the CSV predicate
-        if e.ok and e.ret is not True and e.exc is None:
-            key = classify_nonbool(e)
-            e.dev = key or 'nonbool'
-            col.violation(key, '%s returned %r instead of a boolean' % (name, e.ret), step_case(e), repr(e.ret)[:120], True)
+        if e.ok and e.ret is not True:
+            col.probe('step-nonbool-success')      # e.g. CSV's class object where consensus passes as well
         return
     key = classify_step(e, ok_ref, after_ref, reason, ctx)
     e.dev = key or ('%s/unattributed' % name)
@@ -381,12 +378,6 @@ def _small(st, n):
     return len(st) >= n and all(len(x) <= 4 for x in st[-n:])
 
 
-def classify_nonbool(e):
-    if e.name == 'op_checksequenceverify' and e.ret is NotImplementedError and e.after == e.before:
-        return 'C19/op_checksequenceverify/returns-exception-class'
-    return None
-
-
 def classify_step(e, ok_ref, after_ref, reason, ctx):
     """-> mechanism key or None. Every branch recognises exactly one shape of deviation."""
     n = e.name
@@ -415,8 +406,283 @@ def pred(*names):
     return deco
 
 
-def classify_if(e, ok_ref, found, poisoned, exp_stack, exp_cmds):
+def _enc(n):
+    return si.num_encode(n)
+
+
+def _b(x):
+    return b'\x01' if x else b''
+
+
+def _models_heal(opcode, e, a, ok, ctx_kwargs, candidates, flags=si.CONSENSUS_FLAGS):
+    """Feature ablation on the reference: the smallest set of named departures under which the reference op produces
+    exactly the library's result.  -> tuple of names or None."""
+    import itertools
+    for r in (1, 2, 3):
+        for combo in itertools.combinations(candidates, r):
+            model = tuple(c for c in combo if c != 'NO_NULLDUMMY')
+            fl = flags - {'NULLDUMMY'} if 'NO_NULLDUMMY' in combo else flags
+            okm, afterm, _ = si.step(opcode, e.before, si.Ctx(flags=fl, model=model, **ctx_kwargs))
+            if okm == ok and (not ok or afterm == a):
+                return combo
     return None
+
+
+@pred('op_verify')
+def _p_verify(e, b, a, ok, ok_ref, after_ref, reason, ctx):
+    if ok and not ok_ref and b and _noncanonical_false(b[-1]) and a == b[:-1]:
+        return 'C19/op_verify/bytewise-truthiness'
+
+
+@pred('op_ifdup')
+def _p_ifdup(e, b, a, ok, ok_ref, after_ref, reason, ctx):
+    if ok and ok_ref and _noncanonical_false(b[-1]) and a == b + [b[-1]]:
+        return 'C19/op_ifdup/bytewise-truthiness'
+
+
+@pred('op_not')
+def _p_not(e, b, a, ok, ok_ref, after_ref, reason, ctx):
+    if ok and ok_ref and _noncanonical_false(b[-1]) and a == b[:-1] + [_b(b[-1] == b'')]:
+        return 'C19/op_not/bytewise-zero-test'
+
+
+@pred('op_0notequal')
+def _p_0ne(e, b, a, ok, ok_ref, after_ref, reason, ctx):
+    if ok and ok_ref and _noncanonical_false(b[-1]) and a == b[:-1] + [_b(b[-1] != b'')]:
+        return 'C19/op_0notequal/bytewise-zero-test'
+
+
+@pred('op_booland')
+def _p_booland(e, b, a, ok, ok_ref, after_ref, reason, ctx):
+    if ok and ok_ref and (_noncanonical_false(b[-1]) or _noncanonical_false(b[-2])) and a == b[:-2] + [_b(b[-1] != b'' and b[-2] != b'')]:
+        return 'C19/op_booland/bytewise-zero-test'
+
+
+@pred('op_boolor')
+def _p_boolor(e, b, a, ok, ok_ref, after_ref, reason, ctx):
+    if ok and ok_ref and (_noncanonical_false(b[-1]) or _noncanonical_false(b[-2])) and a == b[:-2] + [_b(b[-1] != b'' or b[-2] != b'')]:
+        return 'C19/op_boolor/bytewise-zero-test'
+
+
+@pred('op_numequal')
+def _p_numequal(e, b, a, ok, ok_ref, after_ref, reason, ctx):
+    if ok and ok_ref and _num(b[-1]) == _num(b[-2]) and b[-1] != b[-2] and a == b[:-2] + [b'']:
+        return 'C19/op_numequal/bytewise-compare'
+
+
+@pred('op_numnotequal')
+def _p_numnotequal(e, b, a, ok, ok_ref, after_ref, reason, ctx):
+    if ok and ok_ref and _num(b[-1]) == _num(b[-2]) and b[-1] != b[-2] and a == b[:-2] + [b'\x01']:
+        return 'C19/op_numnotequal/bytewise-compare'
+
+
+@pred('op_numequalverify')
+def _p_numequalverify(e, b, a, ok, ok_ref, after_ref, reason, ctx):
+    if len(b) < 2:
+        return None
+    if not ok and ok_ref and e.exc is None and _small(b, 2) and _num(b[-1]) == _num(b[-2]) and b[-1] != b[-2]:
+        return 'C19/op_numequal/bytewise-compare'
+    if ok and not ok_ref and not _small(b, 2) and a == b[:-1]:
+        # op_numequal refused the oversized operand, its False is ignored and op_verify pops the top item
+        return 'C19/op_numequalverify/oversized-operand-passes'
+
+
+@pred('op_sub')
+def _p_sub(e, b, a, ok, ok_ref, after_ref, reason, ctx):
+    if ok and ok_ref and _small(b, 2) and a == b[:-2] + [_enc(_num(b[-1]) - _num(b[-2]))]:
+        return 'C19/op_sub/operands-swapped'
+
+
+def _cmp_pred(fn, key):
+    def p(e, b, a, ok, ok_ref, after_ref, reason, ctx):
+        if ok and ok_ref and _small(b, 2) and a == b[:-2] + [_b(fn(_num(b[-1]), _num(b[-2])))]:
+            return key
+    return p
+
+
+_PRED['op_numlessthan'] = _cmp_pred(lambda top, second: top < second, 'C19/op_numlessthan/operands-swapped')
+_PRED['op_numgreaterthan'] = _cmp_pred(lambda top, second: top > second, 'C19/op_numgreaterthan/operands-swapped')
+_PRED['op_numlessthanorequal'] = _cmp_pred(lambda top, second: top <= second, 'C19/op_numlessthanorequal/operands-swapped')
+_PRED['op_numgreaterthanorequal'] = _cmp_pred(lambda top, second: top >= second, 'C19/op_numgreaterthanorequal/operands-swapped')
+
+
+@pred('op_within')
+def _p_within(e, b, a, ok, ok_ref, after_ref, reason, ctx):
+    # consensus: (x min max) -> min <= x < max; library takes x from the top and max from the third item
+    if ok and ok_ref and _small(b, 3) and a == b[:-3] + [_b(_num(b[-2]) <= _num(b[-1]) < _num(b[-3]))]:
+        return 'C19/op_within/operands-rotated'
+
+
+@pred('op_tuck')
+def _p_tuck(e, b, a, ok, ok_ref, after_ref, reason, ctx):
+    if ok and ok_ref and len(b) >= 2 and a == b + [b[-2]]:
+        return 'C19/op_tuck/behaves-as-over'
+
+
+@pred('op_2swap')
+def _p_2swap(e, b, a, ok, ok_ref, after_ref, reason, ctx):
+    if not ok or len(b) < 2:
+        return None
+    rest = b[:-2]
+    pos = max(len(rest) - 2, 0)
+    shape = rest[:pos] + [b[-1], b[-2]] + rest[pos:]      # `self[-2:-2] = [self.pop(), self.pop()]`
+    if a != shape:
+        return None
+    if ok_ref:
+        return 'C19/op_2swap/moved-pair-reversed'
+    if len(b) < 4:
+        return 'C19/op_2swap/short-stack-accepted'
+
+
+def _pyindex(rest, n):
+    """rest[-n] with Python semantics (n = 0 -> bottom item, n < 0 -> counted from the bottom)"""
+    i = -n
+    if i < -len(rest) or i >= len(rest):
+        return None
+    return i % len(rest) if rest else None
+
+
+@pred('op_pick')
+def _p_pick(e, b, a, ok, ok_ref, after_ref, reason, ctx):
+    if not ok or not b:
+        return None
+    rest = b[:-1]
+    i = _pyindex(rest, _num(b[-1]))
+    if i is None or a != rest + [rest[i]]:
+        return None
+    if ok_ref:
+        return 'C19/op_pick/index-off-by-one'
+    if reason == 'script number overflow':
+        return 'C19/op_pick/oversized-index-accepted'
+    return 'C19/op_pick/out-of-range-index-accepted'
+
+
+@pred('op_roll')
+def _p_roll(e, b, a, ok, ok_ref, after_ref, reason, ctx):
+    if not ok or not b:
+        return None
+    rest = b[:-1]
+    i = _pyindex(rest, _num(b[-1]))
+    if i is None or a != rest[:i] + rest[i + 1:] + [rest[i]]:
+        return None
+    if ok_ref:
+        return 'C19/op_roll/index-off-by-one'
+    if reason == 'script number overflow':
+        return 'C19/op_roll/oversized-index-accepted'
+    return 'C19/op_roll/out-of-range-index-accepted'
+
+
+@pred('op_checksig', 'op_checksigverify')
+def _p_checksig(e, b, a, ok, ok_ref, after_ref, reason, ctx):
+    if len(b) < 2:
+        return None
+    sig, pub = b[-2], b[-1]
+    if not ok and ok_ref and e.exc is not None:
+        if sig == b'':
+            return 'C19/op_checksig/empty-signature-raises'
+        pt = si.decode_pubkey(pub)
+        if pt is None:
+            return 'C19/op_checksig/undecodable-pubkey-raises'
+        if len(pub) == 65 and pub[0] in (6, 7):
+            return 'C19/op_checksig/hybrid-pubkey-refused'
+        return None
+    if ok and len(sig) == 64:
+        healed = _models_heal(METHOD_OP[e.name], e, a, ok, {'digest': ctx.digest}, ('SIG_RAW64',))
+        if healed == ('SIG_RAW64',):
+            return 'C19/op_checksig/raw-64-byte-signature-accepted'
+    return None
+
+
+_CMS_MODELS = {'CMS_COUNTS_UNCHECKED': 'counts-unchecked', 'CMS_DUMMY_OPTIONAL': 'dummy-optional', 'NO_NULLDUMMY': 'nulldummy-not-enforced',
+               'SIG_RAW64': 'raw-64-byte-signature-accepted'}
+
+
+def _cms_parts(b):
+    """(pubkeys, sigs) as the library pops them, or None when the stack is too short"""
+    try:
+        st = list(b)
+        n = _num(st.pop())
+        keys = [st.pop() for _ in range(max(n, 0))]
+        m = _num(st.pop())
+        sigs = [st.pop() for _ in range(max(m, 0))]
+        return n, m, keys, sigs
+    except (IndexError, si.ScriptFail):
+        return None
+
+
+@pred('op_checkmultisig', 'op_checkmultisigverify')
+def _p_cms(e, b, a, ok, ok_ref, after_ref, reason, ctx):
+    if not ok and ok_ref and e.exc is not None:
+        parts = _cms_parts(b)
+        if parts is None:
+            return None
+        n, m, keys, sigs = parts
+        if m == 0 and n > 0 and isinstance(e.exc, IndexError):
+            return 'C19/op_checkmultisig/zero-signatures-required-raises'
+        if any(s_ == b'' for s_ in sigs):
+            return 'C19/op_checkmultisig/empty-signature-raises'
+        if any(si.decode_pubkey(k) is None for k in keys):
+            return 'C19/op_checkmultisig/undecodable-pubkey-raises'
+        return None
+    if ok:
+        healed = _models_heal(METHOD_OP[e.name], e, a, ok, {'digest': ctx.digest}, tuple(_CMS_MODELS))
+        if healed:
+            return 'C19/op_checkmultisig/' + '+'.join(_CMS_MODELS[h] for h in healed)
+    return None
+
+
+_CLTV_MODELS = {'CLTV_THRESHOLD_5E7': 'type-threshold-50000000', 'CLTV_ZERO_TXLOCKTIME_FAILS': 'zero-tx-locktime-refused',
+                'NUM_ANYSIZE': 'oversized-operand-accepted'}
+
+
+@pred('op_checklocktimeverify')
+def _p_cltv(e, b, a, ok, ok_ref, after_ref, reason, ctx):
+    if ok and a != b:
+        return None
+    kw = {'locktime': ctx.locktime, 'sequence': ctx.sequence}
+    healed = _models_heal(METHOD_OP[e.name], e, a, ok, kw, tuple(_CLTV_MODELS))
+    if healed and len(healed) == 1:
+        return 'C19/op_checklocktimeverify/' + _CLTV_MODELS[healed[0]]
+    return None
+
+
+@pred('op_checksequenceverify')
+def _p_csv(e, b, a, ok, ok_ref, after_ref, reason, ctx):
+    if ok and not ok_ref and e.ret is NotImplementedError and a == b:
+        return 'C19/op_checksequenceverify/not-implemented-always-passes'
+
+
+def classify_if(e, ok_ref, found, poisoned, exp_stack, exp_cmds):
+    if not e.ok or not e.before:
+        return None
+    cond = si.cast_to_bool(e.before[-1])
+    if e.name == 'op_notif':
+        cond = not cond
+    if e.after != e.before[:-1]:
+        return None
+    if found and poisoned and not ok_ref and _cmds_eq(e.cmds_after, exp_cmds):
+        return 'C19/op_if/skipped-branch-not-scanned'
+    f2, sel2, tail2, _ = si.split_conditional(e.cmds_before, cond, single_else=True)
+    if f2 and _cmds_eq(e.cmds_after, sel2 + tail2) and sum(1 for c in _level0(e.cmds_before) if c == 0x67) >= 2:
+        return 'C19/op_if/only-first-else-honoured'
+    return None
+
+
+def _level0(cmds):
+    """commands at nesting level 0 up to the matching OP_ENDIF"""
+    d = 0
+    out = []
+    for c in cmds:
+        if isinstance(c, int):
+            if c in (0x63, 0x64):
+                d += 1
+            elif c == 0x68:
+                if d == 0:
+                    break
+                d -= 1
+        if d == 0:
+            out.append(c)
+    return out
 
 
 # ====================================================================== step workload
@@ -801,21 +1067,315 @@ class Diverged(Exception):
     pass
 
 
+class StoppedAtLT(Exception):
+    pass
+
+
+DISPATCH_MODELS = [
+    ('', ()),
+    ('dispatch/final-check-bytewise-truthiness', ('FINAL_BYTEWISE',)),
+    ('dispatch/resource-limits-not-enforced', ('NOLIMITS',)),
+    ('op_if/skipped-branch-not-scanned', ('NO_UNEXECUTED_FAIL',)),
+    ('op_if/only-first-else-honoured', ('SINGLE_ELSE',)),
+    ('dispatch/checkmultisig-verifies-then-pushes-env-redeemscript', ('CMS_REWRITE',)),
+]
+
+
+def _cms_rewrite(cmds, env):
+    """Attribution model of the dispatch loop's CHECKMULTISIG handling: the result is verified on the spot and
+    env_data['redeemscript'] is pushed (a missing entry ends the evaluation as invalid)."""
+    rs = (env or {}).get('redeemscript')
+    tail = [bytes(rs)] if isinstance(rs, (bytes, bytearray)) else [0x65]   # OP_VERIF: fails inside the dispatch loop
+    out = []
+    for c in cmds:
+        if c == 0xae:
+            out += [0xae, 0x69] + tail
+        elif c == 0xaf:
+            out += [0xaf] + tail
+        else:
+            out.append(c)
+    return out
+
+
+def hybrid(cmds, ctx_args, top, model, env, stop_lt=False, undispatchable=None):
+    """The consensus dispatch loop (optionally under named attribution models) fed with the library's observed
+    step results.  -> Result or None when the library's step sequence cannot be aligned with it.
+    `undispatchable`: opcodes the library's dispatch loop cannot reach (it raises there); given only when the library
+    did raise, so that the replay may stop at such an opcode exactly where the library's step log ends."""
+    mm = tuple(m for m in model if m != 'CMS_REWRITE')
+    prog = _cms_rewrite(cmds, env) if 'CMS_REWRITE' in model else cmds
+    extra = [0]
+
+    def hook(j, opcode, before):
+        if j >= len(top):
+            if stop_lt and opcode in LT_FAMILY:
+                raise StoppedAtLT()
+            if undispatchable is not None and opcode in undispatchable and j == len(top):
+                extra[0] = 1
+                return (False, before)
+            raise Diverged()
+        e = top[j]
+        if METHOD_OP.get(e.name) != opcode or not e.judged:
+            raise Diverged()
+        if e.before is not None and [bytes(x) for x in e.before] != before:
+            raise Diverged()
+        if e.name == 'op_return':
+            return (False, before)
+        return (e.ok, [bytes(x) for x in e.after] if all_bytes(e.after) else before)
+    try:
+        H = si.verify(prog, si.Ctx(model=mm, **ctx_args), hook=hook)
+    except Diverged:
+        return None
+    if H.nsteps != len(top) + extra[0]:
+        return None
+    return H
+
+
 def attribute_program(cmds, ctx_args, env, log, valid, lib_stack, R, kind, unimpl, exc, mon):
+    """-> mechanism name (without the C19/ prefix) that fully explains the library's verdict and final stack, or None."""
+    top = [e for e in log if e.depth == 0 and e.name not in IF_METHODS]
+    devs = [e for e in log if e.dev]
+    libst = [bytes(x) for x in lib_stack] if lib_stack is not None and all_bytes(lib_stack) else None
+
+    def explains(H):
+        if H is None or H.ok != valid:
+            return False
+        return (not valid) or (libst is not None and H.stack[:-1] == libst)
+
+    if kind == 'false-reject' and unimpl and set(unimpl) <= LT_FAMILY and exc is not None and type(exc).__name__ == 'ScriptError':
+        try:
+            hybrid(cmds, ctx_args, top, (), env, stop_lt=True)
+        except StoppedAtLT:
+            if all(hasattr(mon.Stack, m) for m in ('op_numlessthan', 'op_numgreaterthan', 'op_numlessthanorequal', 'op_numgreaterthanorequal')):
+                return 'dispatch/lessthan-family-unreachable'
+        return None
+
+    def first_dev():
+        keyed = [e.dev for e in devs if e.dev.startswith('C19/')]
+        if devs and len(keyed) == len(devs):
+            return keyed[0][len('C19/'):]
+        return None
+
+    def decisive(model):
+        """does the dispatch-level departure alone (no substituted step results) give the library's verdict?"""
+        mm = tuple(m for m in model if m != 'CMS_REWRITE')
+        prog = _cms_rewrite(cmds, env) if 'CMS_REWRITE' in model else cmds
+        P = si.verify(prog, si.Ctx(model=mm, **ctx_args))
+        if kind == 'final-stack':
+            return P.ok and libst is not None and P.stack[:-1] == libst
+        return P.ok == valid
+
+    undisp = None
+    if exc is not None and type(exc).__name__ in ('ScriptError', 'KeyError'):
+        impl = implemented_by_dispatch(mon.Stack)
+        undisp = ({0x50} | set(range(0x61, 0x100))) - impl - {0x63, 0x64, 0x67, 0x68}
+    for name, model in DISPATCH_MODELS:
+        H = hybrid(cmds, ctx_args, top, model, env, undispatchable=undisp)
+        if explains(H):
+            if name and (not devs or decisive(model)):
+                return name
+            return first_dev()
+    # two dispatch-level departures at once
+    for i in range(1, len(DISPATCH_MODELS)):
+        for k in range(i + 1, len(DISPATCH_MODELS)):
+            model = DISPATCH_MODELS[i][1] + DISPATCH_MODELS[k][1]
+            H = hybrid(cmds, ctx_args, top, model, env, undispatchable=undisp)
+            if explains(H):
+                if not devs or decisive(model):
+                    return DISPATCH_MODELS[i][0] + '+' + DISPATCH_MODELS[k][0].split('/', 1)[1]
+                return first_dev()
     return None
 
 
 # ====================================================================== program workload
-def gen_program(rnd, maxlen, impl):
-    return [0x51]
+NEEDS = {0x69: 1, 0x6d: 2, 0x6e: 2, 0x6f: 3, 0x70: 4, 0x71: 6, 0x72: 4, 0x73: 1, 0x74: 0, 0x75: 1, 0x76: 1, 0x77: 2, 0x78: 2, 0x79: 2,
+         0x7a: 2, 0x7b: 3, 0x7c: 2, 0x7d: 2, 0x82: 1, 0x87: 2, 0x88: 2, 0x8b: 1, 0x8c: 1, 0x8f: 1, 0x90: 1, 0x91: 1, 0x92: 1, 0x93: 2,
+         0x94: 2, 0x9a: 2, 0x9b: 2, 0x9c: 2, 0x9d: 2, 0x9e: 2, 0xa3: 2, 0xa4: 2, 0xa5: 3, 0xa6: 1, 0xa7: 1, 0xa8: 1, 0xa9: 1, 0xaa: 1,
+         0x61: 0, 0xb0: 0, 0xb3: 0, 0xb9: 0}
+RARE_OPS = [0x9f, 0xa0, 0xa1, 0xa2, 0x6b, 0x6c, 0xab, 0x50, 0x62, 0x89, 0x8a, 0x7e, 0x8d, 0x95, 0x65, 0x66, 0x6a, 0xba, 0xfe]
+
+
+def gen_push(rnd):
+    r = rnd.random()
+    if r < 0.45:
+        return rnd.choice([0, 0x4f] + list(range(0x51, 0x61)))
+    if r < 0.65:
+        return rnd.choice(ELEMENTS[:9])
+    if r < 0.85:
+        return si.num_encode(rnd.choice([1, -1]) * rnd.getrandbits(rnd.choice([3, 7, 8, 15, 16, 31])))
+    if r < 0.90:
+        return rnd.choice([b'\x00', b'\x80', b'\x00\x00', b'\x00\x80', b'\x01\x00'])
+    if r < 0.95:
+        return rnd.randbytes(rnd.choice([5, 20, 32, 33]))
+    return rnd.choice(ELEMENTS[9:])
+
+
+def gen_program(rnd, maxlen, kr=None, digest=None):
+    """Stack-aware random program: the reference tracks the stack of the prefix so that most opcodes find operands;
+    conditionals nest; a small share of tokens is hostile (unbalanced, repeated OP_ELSE, disabled / unimplemented)."""
+    target = rnd.randint(1, maxlen)
+    cmds = []
+    opens = []            # per open conditional: has an OP_ELSE been emitted
+    ops = list(NEEDS)
+    ctx = si.Ctx(digest=digest, locktime=1000, sequence=10, version=2)
+    guard = 0
+    while len(cmds) < target and guard < 6 * maxlen:
+        guard += 1
+        r = si.eval_script(cmds, ctx)
+        alive = r.ok or r.reason == 'unbalanced conditional'
+        executing = alive and all(r.vf or [True])
+        st = r.stack if alive else []
+        x = rnd.random()
+        if not alive and x < 0.5:
+            break
+        if executing:
+            if x < 0.30:
+                cmds.append(gen_push(rnd))
+            elif x < 0.80:
+                for _ in range(6):
+                    o = rnd.choice(ops)
+                    if NEEDS[o] > len(st):
+                        continue
+                    ok_, _a, _r = si.step(o, st, ctx)
+                    if ok_ or rnd.random() < 0.15:
+                        cmds.append(o)
+                        break
+                else:
+                    cmds.append(gen_push(rnd))
+            elif x < 0.88:
+                if not st:
+                    cmds.append(gen_push(rnd))
+                cmds.append(rnd.choice([0x63, 0x63, 0x64]))
+                opens.append(False)
+            elif x < 0.93 and opens:
+                if not opens[-1] or rnd.random() < 0.15:
+                    cmds.append(0x67)
+                    opens[-1] = True
+                else:
+                    cmds.append(0x68)
+                    opens.pop()
+            elif x < 0.96 and opens:
+                cmds.append(0x68)
+                opens.pop()
+            elif x < 0.975:
+                cmds.append(rnd.choice(ops))
+            elif x < 0.985:
+                cmds.append(rnd.choice(RARE_OPS))
+            elif x < 0.992 and kr is not None:
+                i = rnd.randrange(len(kr.d))
+                sg = kr.sign(i, digest if rnd.random() < 0.8 else bytes(32))[0]
+                cmds += [sg, kr.pub[i], rnd.choice([0xac, 0xac, 0xad])]
+            elif x < 0.996:
+                cmds += [si.num_encode(rnd.choice([0, 5, 10, 11, 500, 1000, 1001, 60000000])), rnd.choice([0xb1, 0xb2])]
+            else:
+                cmds.append(gen_push(rnd))
+        else:
+            if x < 0.30:
+                cmds.append(gen_push(rnd))
+            elif x < 0.55:
+                cmds.append(rnd.choice(ops))
+            elif x < 0.62:
+                cmds.append(rnd.choice([0x63, 0x64]))
+                opens.append(False)
+            elif x < 0.80 and opens:
+                if not opens[-1] or rnd.random() < 0.15:
+                    cmds.append(0x67)
+                    opens[-1] = True
+                else:
+                    cmds.append(0x68)
+                    opens.pop()
+            elif x < 0.95 and opens:
+                cmds.append(0x68)
+                opens.pop()
+            elif x < 0.97:
+                cmds.append(rnd.choice(RARE_OPS))
+            else:
+                cmds.append(gen_push(rnd))
+    if rnd.random() < 0.93:
+        cmds += [0x68] * len(opens)
+    if rnd.random() < 0.6:
+        r = si.verify(cmds, ctx)
+        if not r.ok and r.reason.startswith('eval false'):
+            cmds.append(rnd.choice([0x51, 0x51, 0x74, 0x91, 0x52]))
+    return cmds
 
 
 def run_programs(spec, col):
-    pass
+    rnd = random.Random('%s-%d-%d' % (ID, spec['seed'], spec['shard']))
+    kr = Keyring(rnd, 3)
+    maxlen = spec['maxlen']
+    for k in range(spec['n_programs']):
+        digest = DIGEST if k % 2 else rnd.randbytes(32)
+        ml = maxlen if k % 3 else max(4, maxlen // 3)
+        cmds = gen_program(rnd, ml, kr, digest)
+        env = {'sequence': 10, 'locktime': 1000, 'version': 2}
+        run_program(cmds, digest, env, col, 'program/random/len%d-%d' % (10 * (len(cmds) // 10), 10 * (len(cmds) // 10) + 9))
+    # consensus resource limits (a handful per shard; they are deterministic)
+    if spec['shard'] == 0:
+        big = b'\x42' * 521
+        for label, cmds in (('push-521', [big, 0x75, 0x51]), ('push-520', [big[:520], 0x75, 0x51]),
+                            ('ops-202', [0x51] + [0x61] * 202), ('ops-201', [0x51] + [0x61] * 201),
+                            ('stack-1001', [0x51] * 1001), ('stack-1000', [0x51] * 1000),
+                            ('script-size-10001', [b'\x42' * 520, 0x75] * 19 + [b'\x42' * 78, 0x75, 0x51]),
+                            ('multisig-21-keys', [0, 0] + [b'\x02' + bytes(32)] * 21 + [si.num_encode(21), 0xae])):
+            run_program(cmds, DIGEST, {'redeemscript': b'\x51'}, col, 'program/limits/' + label)
+
+
+def run_lifted(spec, col):
+    """Every small stack x every dispatchable opcode as a program (pushes followed by the opcode): the program-level
+    consequence of each step deviation, in particular which of them turn into a false accept."""
+    mon = monitor(col)
+    sh, ns = spec['shard'], spec['nshard']
+    impl = sorted(c for c in implemented_by_dispatch(mon.Stack) if c not in (0x63, 0x64, 0x67, 0x68, 0xac, 0xad, 0xae, 0xaf))
+    env = {'sequence': 10, 'locktime': 1000, 'version': 2}
+    full3 = spec['depth'] >= 4
+    for idx, st in iter_stacks(3):
+        if idx % ns != sh:
+            continue
+        for opc in impl:
+            if len(st) == 3 and not full3 and not (NEEDS.get(opc, 0) >= 3 or opc in (0x79, 0x7a, 0x72)):
+                continue
+            run_program(list(st) + [opc], DIGEST, env, col, 'program/lifted/%s' % si.OPNAME[opc].lower())
+
+
+def _n(n):
+    return (0x50 + n) if 1 <= n <= 16 else (0 if n == 0 else si.num_encode(n))
 
 
 def run_spends(spec, col):
-    pass
+    rnd = random.Random('%s-spend-%d-%d' % (ID, spec['seed'], spec['shard']))
+    n = spec['n_spends']
+    count = 0
+    while count < n:
+        kr = Keyring(rnd, 4)
+        digest = rnd.randbytes(32)
+        i = rnd.randrange(4)
+        sv = sig_variants(kr, i, digest, rnd)
+        pv = pub_variants(kr, i)
+        for sn in rnd.sample(sorted(sv), 6) + ['valid']:
+            pn = rnd.choice(['compressed', 'compressed', 'uncompressed']) if sn != 'valid' else rnd.choice(sorted(pv))
+            sg, pb = sv[sn], pv[pn]
+            tail = rnd.choice([[], [], [], [0x91], [0x91, 0x91]])
+            kind = rnd.choice(['p2pk', 'p2pkh', 'p2pkh', 'p2pkh-wrong-hash', 'p2pk-verify'])
+            if kind == 'p2pk':
+                cmds = [sg, pb, 0xac] + tail
+            elif kind == 'p2pk-verify':
+                cmds = [sg, pb, 0xad, 0x51]
+            else:
+                h = ec.hash160(pb if kind == 'p2pkh' else pb + b'\x00')
+                cmds = [sg, pb, 0x76, 0xa9, h, 0x88, 0xac] + tail
+            run_program(cmds, digest, None, col, 'spend/%s/sig-%s/pub-%s%s' % (kind, sn, pn, '/not' * len(tail)))
+            count += 1
+        for label, st in rnd.sample(multisig_stacks(kr, digest, rnd), 8):
+            body = [(_n(si.num_decode(x)) if (len(x) <= 1 and (x == b'' or 1 <= x[0] <= 16)) else x) for x in st]
+            # the items below the (m keys n) block are the spender's pushes; the block itself is the locking script
+            verify_form = rnd.random() < 0.25
+            lock_cmds = body + ([0xaf, 0x51] if verify_form else [0xae])
+            tail = rnd.choice([[], [], [0x91]]) if not verify_form else []
+            redeem = b'\x51'
+            for envname, env in (('no-env', None), ('env-redeemscript', {'redeemscript': redeem})):
+                run_program(lock_cmds + tail, digest, env, col, 'spend/multisig/%s/%s%s%s' % (label, envname, '/verify' if verify_form else '', '/not' if tail else ''))
+                count += 1
 
 
 # ====================================================================== plan / shards / replay
@@ -866,5 +1426,6 @@ def run_shard(spec, col):
     monitor(col)
     run_exhaustive(spec, col)
     run_targeted(spec, col)
+    run_lifted(spec, col)
     run_programs(spec, col)
     run_spends(spec, col)
